@@ -1,0 +1,75 @@
+//go:build verif
+
+package uePolicyContainer
+
+// Contracts for the deductive check in /verif (comment-only; compiled only with -tags verif).
+
+// ---- C20: policy-section ID allocator ----
+// Representation invariant. The used set is the key set of usedMap (presence, not value).
+//@ define Inv(g) := g.usedMap != nil && g.minValue <= g.maxValue && g.maxValue - g.minValue >= 0 && g.maxValue - g.minValue < 0x3fffffffffffffff && g.valueRange == g.maxValue - g.minValue + 1 && 0 <= g.offset && g.offset < g.valueRange && forallk(k, implies(has(g.usedMap, k), 0 <= k && k < g.valueRange))
+// cyclic interval [b, o) inside [0, range)
+//@ define Between(b, t, o) := ite(b <= o, b <= t && t < o, t >= b || t < o)
+// cyclic distance from o to b, in 1..range (o == b counts as a full cycle)
+//@ define Dist(o, b, r) := ite(o < b, b - o, b - o + r)
+
+//@ func NewGenerator(minValue, maxValue) (g)
+//@   requires minValue <= maxValue && maxValue - minValue >= 0 && maxValue - minValue < 0x3fffffffffffffff
+//@   ensures g != nil && Inv(g) && g.minValue == minValue && g.maxValue == maxValue
+//@   ensures forallk(k, !has(g.usedMap, k))
+//@ end
+
+//@ func (idGenerator *IDGenerator) init(minValue, maxValue)
+//@   requires minValue <= maxValue && maxValue - minValue >= 0 && maxValue - minValue < 0x3fffffffffffffff
+//@   assigns idGenerator.minValue, idGenerator.maxValue, idGenerator.valueRange, idGenerator.offset, idGenerator.usedMap
+//@   ensures Inv(idGenerator) && idGenerator.minValue == minValue && idGenerator.maxValue == maxValue
+//@   ensures forallk(k, !has(idGenerator.usedMap, k))
+//@ end
+
+//@ func (idGenerator *IDGenerator) updateOffset()
+//@   requires idGenerator.valueRange >= 1 && 0 <= idGenerator.offset && idGenerator.offset < idGenerator.valueRange && idGenerator.valueRange < 0x4000000000000000
+//@   assigns idGenerator.offset
+//@   ensures idGenerator.offset == ite(old(idGenerator.offset) + 1 == idGenerator.valueRange, 0, old(idGenerator.offset) + 1)
+//@ end
+
+//@ func (idGenerator *IDGenerator) setOffset(newoffset)
+//@   requires idGenerator.valueRange >= 1 && idGenerator.valueRange < 0x4000000000000000
+//@   assigns idGenerator.offset
+//@   ensures 0 <= idGenerator.offset && idGenerator.offset < idGenerator.valueRange
+//@   ensures implies(0 <= newoffset && newoffset < idGenerator.valueRange, idGenerator.offset == newoffset)
+//@ end
+
+//@ func (idGenerator *IDGenerator) Allocate() (id, err)
+//@   requires Inv(idGenerator)
+//@   assigns idGenerator.offset, idGenerator.usedMap
+//@   ensures Inv(idGenerator)
+//@   ensures implies(err == nil, idGenerator.minValue <= id && id <= idGenerator.maxValue)
+//@   ensures implies(err == nil, !old(has(idGenerator.usedMap, id - idGenerator.minValue)))
+//@   ensures implies(err == nil, forallk(k, has(idGenerator.usedMap, k) == (old(has(idGenerator.usedMap, k)) || k == id - idGenerator.minValue)))
+//@   ensures implies(err != nil, forallk(k, has(idGenerator.usedMap, k) == old(has(idGenerator.usedMap, k))))
+//@   ensures implies(err != nil, forall(k, 0, idGenerator.valueRange, old(has(idGenerator.usedMap, k))))
+//@   loop 0 invariant Inv(idGenerator) && 0 <= offsetBegin && offsetBegin < idGenerator.valueRange
+//@   loop 0 invariant forallk(k, has(idGenerator.usedMap, k) == old(has(idGenerator.usedMap, k)))
+//@   loop 0 invariant forall(t, 0, idGenerator.valueRange, implies(Between(offsetBegin, t, idGenerator.offset), has(idGenerator.usedMap, t)))
+//@   loop 0 decreases Dist(idGenerator.offset, offsetBegin, idGenerator.valueRange)
+//@ end
+
+//@ func (idGenerator *IDGenerator) Allocate_inRange(min, max) (id, err)
+//@   requires Inv(idGenerator)
+//@   assigns idGenerator.offset, idGenerator.usedMap
+//@   ensures Inv(idGenerator)
+//@   ensures implies(err == nil, idGenerator.minValue <= id && id <= idGenerator.maxValue)
+//@   ensures implies(err == nil, !old(has(idGenerator.usedMap, id - idGenerator.minValue)))
+//@   ensures implies(err == nil, forallk(k, has(idGenerator.usedMap, k) == (old(has(idGenerator.usedMap, k)) || k == id - idGenerator.minValue)))
+//@   ensures implies(err != nil, forallk(k, has(idGenerator.usedMap, k) == old(has(idGenerator.usedMap, k))))
+//@   loop 0 invariant Inv(idGenerator) && 0 <= offsetBegin && offsetBegin < idGenerator.valueRange
+//@   loop 0 invariant forallk(k, has(idGenerator.usedMap, k) == old(has(idGenerator.usedMap, k)))
+//@   loop 0 decreases Dist(idGenerator.offset, offsetBegin, idGenerator.valueRange)
+//@ end
+
+//@ func (idGenerator *IDGenerator) FreeID(id)
+//@   requires Inv(idGenerator)
+//@   assigns idGenerator.usedMap
+//@   ensures Inv(idGenerator)
+//@   ensures forallk(k, has(idGenerator.usedMap, k) == (old(has(idGenerator.usedMap, k)) && !(idGenerator.minValue <= id && id <= idGenerator.maxValue && k == id - idGenerator.minValue)))
+//@   ensures implies(idGenerator.minValue <= id && id <= idGenerator.maxValue, !has(idGenerator.usedMap, id - idGenerator.minValue))
+//@ end
